@@ -54,9 +54,9 @@ import (
 // variable known to be nil on that path is still counted as a rejection.
 func init() {
 	register(&Rule{
-		Name:  "COMMIT-POINT",
-		IR:    "ssa",
-		Props: []string{"C13", "C12"}, // a rejected edit that has already changed the world also breaks the per-feature map semantics of C12
+		Name:    "COMMIT-POINT",
+		IR:      "ssa",
+		Props:   []string{"C13", "C12"}, // a rejected edit that has already changed the world also breaks the per-feature map semantics of C12
 		FloorBy: map[string]int{"C12": 6},
 		// AddFeature, AddTag, RemoveTag of ingest.BasicMutableWorld and ingest.MutableOverlayWorld
 		Floor: 6,
